@@ -1,6 +1,7 @@
 """Correspondence machinery: the op-program interpreter for the real broadbean
 (public API only), the pipe to the Lean model driver, canonicalisation and
 comparison.  See DESIGN.md section 4.2."""
+import copy
 import inspect
 import json
 import os
@@ -300,7 +301,8 @@ class Impl:
         for op in ops:
             try:
                 r = self.step(op)
-                out.append({"ok": r})
+                # observe now: a returned structure may alias internal state that later ops change
+                out.append({"ok": copy.deepcopy(r)})
             except Exception as e:  # noqa: BLE001
                 out.append({"err": type(e).__name__, "msg": str(e)[:200]})
         return out
@@ -373,6 +375,11 @@ class Impl:
             self.g(op["id"]).marker1 = lst
         else:
             self.g(op["id"]).marker2 = lst
+
+    def op_bp_appendMarker(self, op):
+        # mutation through the public attribute itself: bp.marker1.append((t, dur))
+        lst = self.g(op["id"]).marker1 if op["which"] == 1 else self.g(op["id"]).marker2
+        lst.append(tuple(self.num(x) for x in op["mark"]))
 
     def op_bp_setSR(self, op):
         self.g(op["id"]).setSR(self.v(op["SR"]))
